@@ -2,5 +2,7 @@ SPECIFICATION Spec
 CONSTANTS Kind = "str"
           FullLen = 1
           RepLen = 2
+          RepPrefixes = {1, 2, 4, 6, 8, 12}
+          RepQuotes = {1, 4}
 INVARIANT Emit
 CHECK_DEADLOCK FALSE
